@@ -119,6 +119,27 @@ class ChainHist(Engine):
             plans.append({'engine': self.name, 'property': [prop],
                           'config': {'mode': 'single', 'parties': [pre], 'never_selected': False, 'fresh_process': {'preselect': pre}, 'systematic': 'chain-selected-before-import'},
                           'steps': steps})
+        # key / script hashes whose Base58Check check bytes re-occur inside version byte + hash (found once by
+        # tools/grind_selfcheck.py, one hash in 2^28): valid addresses like any other
+        try:
+            import json
+            import os
+            with open(os.path.join(os.path.dirname(os.path.abspath(__file__)), 'data', 'selfcheck_payloads.json')) as f:
+                sc = [e for e in json.load(f) if len(e['payload']) == 40]
+        except (OSError, ValueError):
+            sc = []
+        steps = []
+        for chain in RC.CHAINS:
+            steps.append({'t': 0.0, 'prio': 0, 'party': 0, 'op': 'select', 'args': {'op': 'select', 'chain': chain}})
+            for e in sc:
+                for kind in ('p2pkh', 'p2sh'):
+                    if RC.TABLE[chain][kind] == e['version']:
+                        steps.append({'t': 0.0, 'prio': 0, 'party': 0, 'op': 'roundtrip', 'args': {'op': 'roundtrip', 'kind': kind, 'payload': e['payload']}})
+                        steps.append({'t': 0.0, 'prio': 0, 'party': 0, 'op': 'mint', 'args': {'op': 'mint', 'kind': kind, 'payload': e['payload']}})
+            for _ in range(4):
+                steps.append({'t': 0.0, 'prio': 0, 'party': 0, 'op': 'parse', 'args': {'op': 'parse', 'i': len(steps), 'edit': None}})
+        if sc:
+            plans.append({'engine': self.name, 'property': [prop], 'config': {'mode': 'single', 'parties': ['mainnet'], 'never_selected': False, 'systematic': 'check-bytes-re-occur-in-the-hash'}, 'steps': steps})
         return plans
 
     def gen_raw(self, rng):
